@@ -74,7 +74,7 @@ PROPS = {
         "module": "midi",
         "mc": _MIDI_MC,
         "graphs": [("midi", "wire", QT), ("midi", "wirepb", QT)],
-        "traces": [("midi", "framing", QT), ("midi", "short", QT)],
+        "traces": [("midi", "framing", QT), ("midi", "short", QT, {"thorough": 4})],
     },
     "C18": {
         "module": "midi",
